@@ -81,7 +81,7 @@ PARTIAL = ['RoundedVotes is not additive by nature (C13_rounded_additive_refuted
            'C13_rounded_half_class_exact; for the five directed modes the class is sufficient, not exact: ROUND_DOWN does not jump at 0, ROUND_05UP not at 1 mod 5) '
            'or raises InvalidOperation - reproduced by '
            'Model/Convert2.v round_code, compared on the rounded-wide and rounded-class streams',
-           'ScoreToSimpleVotes: theorems for the plain configuration (no unscored_value, min_count <= 0, no truncation) and ballot counts >= 0; sum is per-ballot exact and '
+           'ScoreToSimpleVotes: theorems for the plain configuration (no unscored_value, min_count <= 0, no truncation; sum also with a constant unscored_value) and ballot counts >= 0; sum is per-ballot exact and '
            'additive, mean and median_low are NOT additive (C13_score_mean_additive_refuted, C13_score_median_additive_refuted) - the property\'s list of converters '
            'does not name ScoreToSimpleVotes; what is additive are the tallies they are computed from (C13_score_tallies_additive). The corrections are compared only',
            'MergedSelections merges rankings, not votes: no additivity of the result; its two tallies are additive (C13_merged_sel_tallies_additive)',
@@ -1467,6 +1467,28 @@ def ss_plain(cf):
 def ss_spec(c, io, mo):
     v = common.parse_sx(io)
     cf, votes = c['cfg'], c['votes']
+    if v[0] == 0 and cf['fn'] == 'sum' and cf['unscored'] not in ('none', 'min') and cf['min_count'] <= 0 and q(cf['trunc']) <= 0:
+        # C13_score_sum_unscored_value / _additive: a constant unscored_value is given by every ballot to each candidate of the profile it
+        # does not score; additive on the candidates both sub-profiles score
+        got = {k: common.unq(x) for k, x in v[1]}
+        u = q(cf['unscored'])
+        n_all = sum(w for _, w in votes)
+        for cc in got:
+            want = sum(w * dict((a, q(b_)) for a, b_ in b).get(cc, u) for b, w in votes)
+            if got[cc] != want:
+                c['_class'] = 'score-sum-unscored'
+                return 'sum aggregate (unscored_value %s) of candidate %d is %s, the ballots give %s' % (u, cc, got[cc], want)
+        for mask in c.get('_splits') or []:
+            a = [x for x, m in zip(votes, mask) if m]
+            b = [x for x, m in zip(votes, mask) if not m]
+            if not a or not b:
+                continue
+            da, db = ss_run(c, a), ss_run(c, b)
+            for k in set(da) & set(db):
+                if da[k] + db[k] != got.get(k, 0):
+                    c['_class'] = 'additivity:score-sum-unscored'
+                    return 'ScoreToSimpleVotes(sum, unscored_value): conv(A+B) != conv(A)+conv(B) at candidate %s scored in A and in B (A=%s)' % (k, a)
+        return None
     if v[0] != 0 or not ss_plain(cf):
         return None
     got = {k: common.unq(x) for k, x in v[1]}
@@ -1506,8 +1528,11 @@ def gen_score_simple(rng, count):
         m = rng.randint(1, 5)
         votes = [[b, rng.choice([0, 1, 1, 2, 3, 7, 40])] for b, _ in score_profile(rng, m, rng.randint(1, 6))]
         fn = rng.choice(['sum', 'sum', 'mean', 'median_low'])
-        if rng.random() < 0.7:
+        r = rng.random()
+        if r < 0.6:
             cf = dict(fn=fn, unscored='none', min_count=0, trunc='0', bottom='0')
+        elif r < 0.75:        # the profile-dependent image: a constant for the candidates a ballot does not score
+            cf = dict(fn='sum', unscored=rng.choice(['0', '1', '2', '-1', '1/2']), min_count=0, trunc='0', bottom='0')
         else:
             cf = dict(fn=fn, unscored=rng.choice(['none', 'min', '0', '2']), min_count=rng.choice([0, 0, 2, 5]),
                       trunc=rng.choice(['0', '0', '1', '2', '1/4', '1/10']), bottom=rng.choice(['0', '-1']))
@@ -1517,7 +1542,7 @@ def gen_score_simple(rng, count):
 def score_simple_stream(ctx, stream, cases):
     cases = list(cases)
     for c in cases:
-        ctx.dist['score-simple:%s%s' % (c['cfg']['fn'], '' if ss_plain(c['cfg']) else '-corrected')] += 1
+        ctx.dist['score-simple:%s%s' % (c['cfg']['fn'], '' if ss_plain(c['cfg']) else '-unscored-constant' if (c['cfg']['fn'] == 'sum' and c['cfg']['unscored'] not in ('none', 'min') and c['cfg']['min_count'] <= 0 and q(c['cfg']['trunc']) <= 0) else '-corrected')] += 1
     ctx.differential(stream, cases, ss_line, ss_impl, canon=ss_canon, nontrivial=lambda c: len(c['votes']) > 1, spec=ss_spec)
 
 
